@@ -264,7 +264,9 @@ def _ann(R, unit, tier, only):
             if variant in ("both", "bin2"):
                 d["bin2_id"] = np.array([r[1] for r in rows], dtype=np.int64)
             d["count"] = np.array([r[2] for r in rows], dtype=np.int64)
-            pdf = pd.DataFrame(d, index=[100 + 7 * k for k in range(len(rows))])
+            pdf0 = pd.DataFrame(d, index=[100 + 7 * k for k in range(len(rows))])
+            # row labels of the caller's frame: increasing, all equal (what a concat without ignore_index gives), decreasing
+            pdfs = [pdf0, pdf0.set_axis([5] * len(rows)), pdf0.set_axis([50 - k for k in range(len(rows))])]
             used = [r[0] for r in rows if variant != "bin2"] + [r[1] for r in rows if variant != "bin1"]
             lo_need, hi_need = (min(used), max(used) + 1) if used else (0, 0)
             bvars = [("full", None, None), ("selector", None, None), ("selector-cols", None, None)]
@@ -289,6 +291,8 @@ def _ann(R, unit, tier, only):
                     R.c["nontrivial"] += len(rows) >= 2
                     R.c["transitions"] += 1
                     R.classes["ann:" + bk.split("-")[0]] += 1
+                    pdf = pdfs[kk % 3]
+                    R.classes["ann:labels-" + ("increasing", "repeated", "decreasing")[kk % 3]] += 1
                     if not rows:
                         R.classes["ann:empty"] += 1
                     if len(rows) >= n:
